@@ -50,6 +50,19 @@ def _fake_clock(stamp):
     _time.strftime = lambda fmt, t=None: real_strftime(fmt, real_local(stamp) if t is None else t)
     _time.ctime = lambda secs=None: real_ctime(stamp if secs is None else secs)
     _time.asctime = lambda t=None: real_asctime(real_local(stamp) if t is None else t)
+    # ... and the machine is slow: every reading of a duration clock is 1.5 s
+    # after the previous one (a time budget must not decide what is printed)
+    tick = [0.0]
+
+    def slow():
+        tick[0] += 1.5
+        return tick[0]
+    _time.monotonic = slow
+    _time.perf_counter = slow
+    _time.process_time = slow
+    _time.monotonic_ns = lambda: int(slow() * 10 ** 9)
+    _time.perf_counter_ns = lambda: int(slow() * 10 ** 9)
+    _time.process_time_ns = lambda: int(slow() * 10 ** 9)
 
 
 if os.environ.get('C07_CLOCK'):
